@@ -65,7 +65,7 @@ def run(ctx):
                       f"epoch {o['epoch']['epoch']} ({o['note']}, {len(o['secs'])} sections, CAR via {o['via']}): {why}"[:900], case=case, obs=small)
     if not ctx.replay:
         ctx.reject_detail = {}
-        run_verifyidx(ctx, cases[:(3 if q else 24)])
+        ctx.growth(run_verifyidx, cases[:(3 if q else 24)])
     ctx.samples += cases[:1]
     ctx.extra["epochs_indexed"] = len({(o["case"]) for o in obs})
     ctx.extra["index_generation_failed"] = [o["inconclusive"][-200:] for o in incon][:3]
